@@ -9,7 +9,7 @@ LEAN_MODULES = ["PycModel.Properties.C04"]
 NAMESPACES = ["PycModel.C04"]
 REQUIRED_THEOREMS = ["PycModel.C04.declared_innermost_decides", "PycModel.C04.declared_innermost_other",
                      "PycModel.C04.open_block_transparent", "PycModel.C04.inner_hides_outer_until_close", "PycModel.C04.lookup_refines_spec",
-                     "PycModel.C04.classification", "PycModel.C04.typedef_name_makes_a_declaration", "PycModel.C04.ordinary_name_makes_an_expression"]
+                     "PycModel.C04.classification", "PycModel.C04.typedef_name_makes_a_declaration", "PycModel.C04.ordinary_name_makes_an_expression", "PycModel.C04.typedef_name_makes_a_cast", "PycModel.C04.ordinary_name_makes_a_call"]
 LEVEL = "proof"
 TRUSTED = ["Spec/Scoping.lean: our reading of C99 6.2.1 / 6.2.3 (scope of ordinary identifiers; tags, members and prototype parameters do not affect it)",
            "partial: the refinement is proved for the scope-stack operations; *when* the parser performs them is compared with the spec by exhaustive histories, and the known deviations are listed as findings"]
